@@ -292,6 +292,70 @@ fn units_for(cyc: &Cycle, thorough: bool) -> Vec<Unit> {
     v
 }
 
+/// day windows around numeric thresholds of the three quantities an implementation may narrow: the year (+-2^k, +-10^k),
+/// the day count since the epoch (+-2^k) and the second count (+-2^k): (first day, number of days)
+fn threshold_windows(cyc: &Cycle, thorough: bool) -> Vec<(i64, i64)> {
+    let min_day = cyc.day_of(i32::MIN as i64, 1, 1);
+    let max_day = cyc.day_of(i32::MAX as i64, 12, 31);
+    let mut v: Vec<(i64, i64)> = vec![];
+    let mut years: Vec<i64> = vec![];
+    for k in 5..=31 {
+        years.push(1i64 << k);
+        years.push(-(1i64 << k));
+    }
+    let mut p = 10i64;
+    while p < (1 << 31) {
+        years.push(p);
+        years.push(-p);
+        p *= 10;
+    }
+    // thresholds of the year relative to common epochs (1900, 1970, 2000)
+    for base in [1900i64, 1970, 2000] {
+        for k in [7u32, 8, 15, 16] {
+            years.push(base + (1i64 << k));
+            years.push(base - (1i64 << k));
+        }
+    }
+    for y in years {
+        if y - 1 >= i32::MIN as i64 && y + 1 <= i32::MAX as i64 {
+            v.push((cyc.day_of(y - 1, 12, 1), if thorough { 31 + 366 + 60 } else { 31 + 60 }));
+        }
+    }
+    for k in 6..=40 {
+        for sgn in [1i64, -1] {
+            let d = sgn * (1i64 << k);
+            if d - 40 >= min_day && d + 40 <= max_day {
+                v.push((d - 40, 81));
+            }
+        }
+    }
+    for k in 10..=56 {
+        for sgn in [1i64, -1] {
+            let d = refmodel::cal::floor_div(sgn * (1i64 << k), SECS_PER_DAY);
+            if d - 2 >= min_day && d + 2 <= max_day {
+                v.push((d - 2, 5));
+            }
+        }
+    }
+    v
+}
+
+fn sweep_thresholds(cyc: &Cycle, c02: bool, thorough: bool, rec: &Recorder) -> Tally {
+    let ws = threshold_windows(cyc, thorough);
+    let t = ws
+        .par_iter()
+        .map(|&(d0, n)| match guard(|| run_chunk(cyc, c02, d0, n, SecSet::Edge, rec, "threshold_windows")) {
+            Ok(t) => t,
+            Err(msg) => {
+                rec.violation("threshold_windows", json!({"kind":"chunk","start_day":d0,"n_days":n,"secs":"edge","c02":c02}), json!("no panic"), json!(msg));
+                Tally::default()
+            }
+        })
+        .reduce(Tally::default, Tally::merge);
+    rec.sub("threshold_windows", json!({"windows": ws.len(), "days": t.states, "evaluations": t.evals, "note": "days around year = +-2^k, +-10^k, epoch +- 2^k; day count = +-2^k; second count = +-2^k"}));
+    t
+}
+
 /// the 40 seam days of a 400-year cycle (offsets from the cycle's 1 January of year 0 mod 400)
 fn seam_days(cyc: &Cycle) -> Vec<i64> {
     let base = cyc.day_of(2000, 1, 1);
@@ -592,6 +656,9 @@ pub fn run(args: &Args) -> i32 {
     }
     let mut total = run_units(&cyc, c02, &units, &rec);
     total = total.merge(sweep_all_cycles(&cyc, c02, thorough, &rec));
+    if !args.digest_mode {
+        total = total.merge(sweep_thresholds(&cyc, c02, thorough, &rec));
+    }
     if c02 {
         total = total.merge(sweep_validity(&cyc, &rec, thorough));
         total = total.merge(sweep_years(&cyc, &rec, thorough));
